@@ -274,6 +274,12 @@ def run(chk):
         sd, acs, frames = gen_case(chk, MX, force_multi=force_multi, force_rho=force_rho, force_rate_frame=force_rate_frame,
                                    all_frames=(kind in ("damping", "stability") and rnd < 2))
         name = rng.choice([a[0] for a in acs])
+        if kind == "state" and rnd == 0:
+            # (enumerated) a wind profile with a node a few feet above the aircraft: over the position step the loads are not linear in the
+            # altitude, so the derivative depends on the step that was asked for
+            h_ = -[a_ for a_ in acs if a_[0] == name][0][2]["position"][2]
+            sd["scene"]["atmosphere"]["V_wind"] = [[h_ - 4000.0, 5.0, -3.0, 0.0], [h_ + 15.0, 12.0, 4.0, 1.0], [h_ + 4000.0, -20.0, 10.0, -2.0]]
+            chk.count("state=wind-profile-node-within-step")
         if kind == "control" and rnd == 1:
             # (enumerated) a control set as a span-wise distribution of deflections (documented: float or array)
             cs_ = dict([a_ for a_ in acs if a_[0] == name][0][3])
